@@ -12,11 +12,7 @@ fn mk(name: &str, cfg: Cfg, alpha: Alpha, pfx: &str, depth: usize, min_depth: us
     let mut prop = SeqProp::new("C01", cfg, alpha);
     prop.prefix = prefix(pfx);
     prop.probe = probe;
-    let extra: usize = std::env::var("FJV_DEDUP_EXTRA").ok().and_then(|s| s.parse().ok()).unwrap_or(0);
-    prop.dedup = extra > 0;
-    let depth = std::env::var("FJV_DEDUP_FROM").ok().and_then(|s| s.parse().ok()).unwrap_or(depth);
-    let secs = std::env::var("FJV_SECS").ok().and_then(|s| s.parse().ok()).unwrap_or(secs);
-    Pass { name: name.to_string(), prop, depth, min_depth, budget: Duration::from_secs_f64(secs), dedup_extra: extra, dedup_budget: Duration::from_secs_f64(secs) }
+    Pass { name: name.to_string(), prop, depth, min_depth, budget: Duration::from_secs_f64(secs), dedup_extra: 0, dedup_budget: Duration::ZERO }
 }
 
 pub fn passes(tier: &str) -> Vec<Pass> {
@@ -65,7 +61,7 @@ pub fn bodies(tier: &str) -> Vec<crate::e3::BodySpec> {
 pub fn run(tier: &str) -> i32 {
     let t0 = Instant::now();
     let mut o = Outcome::new("C01", tier, "model_checking");
-    let ps = passes(tier);
+    let ps = with_dedup(passes(tier), tier);
     let wit = run_passes(&mut o, &ps);
     o.cov("rule", json!("every enabled operation program up to the per-pass depth is executed on the real database (no worker threads; queued worker messages are stepped explicitly in every order); after each program all read methods over the probe set are compared with a BTreeMap model; states = programs executed (nodes of the execution tree), no state merging"));
     o.assumptions = vec![
